@@ -316,6 +316,38 @@ static void register_templates() {
         });
     });
 
+    reg("misc_helpers", [](V& v) {
+        const int n = v.pick({0, 1, 6});
+        const int p = v.pick({1, 2, 6, 160});
+        const int q = v.pick({1, 3, 4, 147});
+        v.run([=] {
+            const arr_real a = AR(n);
+            const arr_cmplx c = AC(n);
+            use(double(dl::sign(-2.5) + dl::sign(0.0) + dl::sign(3.0)));
+            use(dl::sign(cmplx_t{0, 0}));
+            use(dl::sign(cmplx_t{3, -4}));
+            use(dl::eps() + dl::eps(1e10) + double(dl::eps(1.0f)));
+            const auto pq = dl::IResampler::simplify(p, q);
+            use(double(pq.first + pq.second));
+            use(dl::array_cast<cmplx_t>(a));
+            use(dl::array_cast<real_t>(a));
+            use(dl::max(2, 3.5) + dl::min(2.0, 3));
+            if (n > 0) {
+                arr_real b = a;
+                auto s = b.slice(0, n, 1);
+                use(double(s.stride() + s.size()));
+                const arr_real& cb = b;
+                use(double(cb.slice(0, n).stride()));
+                use(double(b(0) + b(-1) + cb(0)));
+            }
+            dl::LmsFilterR f(4, 0.1);
+            dl::RlsFilterR g(4);
+            use(double(f.coeffs_locked()) + double(g.coeffs_locked()));
+            use(dl::nmse(a + 1.0, a));
+            use(dl::nmse(c + 1.0, c));
+        });
+    });
+
     // ---- math.h ----
     reg("math_elementwise", [](V& v) {
         const int n = v.pick({0, 1, 2, 17});
